@@ -59,6 +59,24 @@ def _setup(opaque_consts=True):
     return h, stub, consts
 
 
+class SymN(SR):
+    """the Mellin variable as a real symbol that also supports the code's generic continuation of (-1)^N:
+    (-1)**N = exp(i pi N) = cos(pi N) + i sin(pi N)  (interned cos/sin atoms with cos^2 + sin^2 = 1)."""
+
+    __slots__ = ()
+
+    def __rpow__(self, base):
+        if isinstance(base, (int, float)) and base == -1:
+            import math
+
+            return Cx(SR(QZERO), self * math.pi).exp()
+        return SR.__rpow__(self, base)
+
+
+def _symN(name="N"):
+    return SymN(Q(Poly.var(name)))
+
+
 SIMPLE = {1: ("w1", "S1"), 2: ("w2", "S2"), 3: ("w3", "S3"), 4: ("w4", "S4"), 5: ("w5", "S5")}
 
 
@@ -308,7 +326,7 @@ def _case_cache_one(log, name, flag):
             E.rebind(h["g_functions"], g, uf)
             if g in vars(c):
                 E.rebind(c, g, uf)
-        N = SR.var("N")
+        N = _symN()
         assume(N - 1, ">=0")
         memo = {}
 
@@ -323,16 +341,18 @@ def _case_cache_one(log, name, flag):
         got = c.get(idx, cache, N, flag)
         filled = sorted(KEYS[i] for i in cache.read_prefilled)
         kw = {"name": name, "flag": flag, "filled": filled}
-        v = prove_zero(got - direct(idx), "cache.get(%s, valid cache, N, %s) == direct value [prefilled: %s]" % (name, flag, ",".join(filled) or "-"))
+        tagp = "[prefilled: %s]" % (",".join(filled) or "-")
+        v = prove_zero(got - direct(idx), "cache.get(%s, valid cache, N, %s) == direct value %s" % (name, flag, tagp))
         E.decide(log, v, "cache.get:%s" % name, replay=(MOD, "replay_cache", kw), sampler=_sampler)
+        # real-analyticity: with psi_k real on the real axis the value is real for real N; in particular a value requested with a
+        # parity flag must not contain the generic continuation (-1)^N = exp(i pi N)
+        for lab, val in (("cache.get(%s)" % name, got), ("direct %s" % name, direct(idx))):
+            v = prove_zero(E.im_sr(val), "Im %s == 0 for real N (is_singlet=%s) %s" % (lab, flag, tagp))
+            E.decide(log, v, "cache.get:%s:real" % name, replay=(MOD, "replay_cache", dict(kw, conj=True)), sampler=_sampler)
         # validity is preserved: every slot written holds the directly computed value
-        res = SR(QZERO)
-        for i, val in cache.written.items():
-            dd = val - direct(i)
-            res = res + dd * dd
-        v = prove_zero(res, "cache.get(%s, .., %s) leaves the cache valid: slots written %s hold direct values [prefilled: %s]"
-                       % (name, flag, ",".join(sorted(KEYS[i] for i in cache.written)), ",".join(filled) or "-"))
-        E.decide(log, v, "cache.get:%s:validity" % name, replay=(MOD, "replay_cache", dict(kw, check_slots=True)), sampler=_sampler)
+        for i, val in sorted(cache.written.items()):
+            v = prove_zero(val - direct(i), "cache.get(%s, .., %s) leaves the cache valid: slot %s written holds its direct value %s" % (name, flag, KEYS[i], tagp))
+            E.decide(log, v, "cache.get:%s:validity" % name, replay=(MOD, "replay_cache", dict(kw, check_slots=True)), sampler=_sampler)
         # the requested slot is stored
         st = cache.state.get(idx)
         ok = st is not None and st[0] == "val"
@@ -342,6 +362,7 @@ def _case_cache_one(log, name, flag):
         log.collect_ctx()
         _note_axioms(log, stub)
 
+    log.register_replay("cache.get:%s" % name, (MOD, "replay_cache", {"name": name, "flag": flag, "filled": [], "check_slots": True, "conj": True}), _sampler)
     _r, pm = explore(run, max_paths=4096)
     log.path_stats(pm)
 
@@ -499,7 +520,7 @@ def _direct_real(name, N, flag):
     return _direct(h, name, N, flag)
 
 
-def replay_cache(point, name, flag, filled, check_slots=False):
+def replay_cache(point, name, flag, filled, check_slots=False, conj=False):
     """real cache: prefill the given slots with directly computed values, call get, compare with direct evaluation
     (weights 1-5 additionally against mpmath polygamma)."""
     import numpy as np
@@ -517,6 +538,17 @@ def replay_cache(point, name, flag, filled, check_slots=False):
         want = complex(_direct_real(name, N, flag))
         if got != got:
             return {"detail": "cache.get(%s, N=%r, is_singlet=%s) with prefilled %s returns nan (an empty slot was used as a value)" % (name, N, flag, filled)}
+        # real-analyticity (independent of the w-functions used as 'direct' reference): S(conj N) = conj S(N), real on the real axis
+        if name not in NEEDS_FLAG or flag is not None:
+            cache2 = c.reset()
+            for f in filled:
+                cache2[getattr(c, f)] = _direct_real(f, N.conjugate(), flag)
+            got2 = complex(c.get(getattr(c, name), cache2, N.conjugate(), flag))
+            if abs(got2 - got.conjugate()) > 1e-8 * max(1.0, abs(got)):
+                return {"detail": "cache.get(%s, is_singlet=%s) [prefilled %s] is not real-analytic: value at conj N = %r, conj of value at N=%r is %r" % (name, flag, filled, got2, N, got.conjugate())}
+            d1, d2 = complex(_direct_real(name, N, flag)), complex(_direct_real(name, N.conjugate(), flag))
+            if abs(d2 - d1.conjugate()) > 1e-8 * max(1.0, abs(d1)):
+                return {"detail": "direct %s(N, is_singlet=%s) is not real-analytic: value at conj N = %r, conj of value at N=%r is %r" % (name, flag, d2, N, d1.conjugate())}
         if len(name) == 2:
             k = int(name[1])
             want = complex((-1) ** (k - 1) / mp.factorial(k - 1) * (mp.polygamma(k - 1, mp.mpc(N) + 1) - mp.polygamma(k - 1, 1)))
